@@ -118,3 +118,16 @@ SPECS['C14'] = {
     'thorough': [J('c14', 'fast'), J('c14', 'asan')],
     'budget': {'quick': 150, 'thorough': 1500},
 }
+
+SPECS['C07'] = {
+    'level': 'exploration',
+    'technique': 'exhaustive enumeration of all <=1 (quick) / <=2 (thorough) deviations from the canonical valid chain of each length 1..5, role and form, verified by the real x509_certs_verify(_tlcp); three-valued executable reference predicate',
+    'claim': 'For every chain in the <=k-deviation neighbourhood of the toolkit-shaped valid chains (1..5 certificates, server/client, TLS and TLCP two-leaf form): the library accepts only if the reference predicate does not say must-reject (validity now, issuer/subject linkage, signatures, anchor in store, every issuer a CA with keyCertSign, pathLen and depth respected, end-entity usages fit the role, no unknown critical extension), and accepts every toolkit-shaped chain the predicate marks must-accept.',
+    'trusted': 'the reference predicate in harness/c07.c (three-valued: stricter library behaviour that the property does not forbid is "unspecified"); certificates are issued with the library\'s own x509_cert_sign_to_der; clock owned by the shim',
+    'rule': 'per (form in {tls,tlcp}) x (role in {server,client}) x (L in 1..5): menu of 26 per-certificate deviations (basicConstraints absent/FALSE/TRUE, pathLen absent/0/1/exact/one-less, keyUsage absent/no-keyCertSign/DS-only/KE-only/non-critical/certSign-on-leaf, EKU server/client/any, expired/not-yet/10-year span, signature bit flip/other key, issuer mismatch, unknown extension non-critical/critical, v1) at every position incl. anchor (and TLCP encryption leaf) + store {unrelated, same name other key, empty} + depth 0..5; quick: single deviations; thorough: all pairs. distinct = the chain specification; non-trivial = reference verdict is definite (must-accept or must-reject).',
+    'bound': {'quick': '<=1 deviation', 'thorough': '<=2 deviations (~10^5 chains)'},
+    'assumptions': ['name constraints, policies, CRL/OCSP status are outside the property', 'more than 2 simultaneous defects not covered'],
+    'quick': [J('c07', 'fast', srcs=['harness/venv.c']), J('c07', 'asan', srcs=['harness/venv.c'], deadline=110)],
+    'thorough': [J('c07', 'fast', srcs=['harness/venv.c']), J('c07', 'asan', srcs=['harness/venv.c'], deadline=1200)],
+    'budget': {'quick': 150, 'thorough': 1500},
+}
